@@ -52,7 +52,8 @@ type c04Case struct {
 	Cfg   memtpt.Config `json:"cfg"`
 	Mode  string        `json:"mode"` // lazy | negotiated | unsupported | handler-reset
 	Fault memtpt.Fault  `json:"fault"`
-	// Fault.Kind: none | io | cancel | hostclose | connclose | gater | rcmgr
+	// Fault.Kind: none | io | cancel | hostclose | connclose | gater | rcmgr | hostclosecall (Close() of the
+	// side's host issued when that side makes its K-th call of gater hook / resource-manager entry What)
 	// Fault.Side: "a" (the dialing host / the dialer's raw end) or "b" (the listening host / its raw end);
 	// for hostclose and connclose the raw end whose op index triggers AND the host that closes
 }
@@ -237,6 +238,7 @@ func c04RunInBubble(cs c04Case, res *c04Result) {
 			h.Trace("host %s Close() issued (%s)", nodes[i].side.Name, why)
 			n := nodes[i]
 			go func() { h.Trace("host %s Close() returned: %v", n.side.Name, n.h.Close()) }()
+			c04Yield()
 		}
 	}
 	switch f.Kind {
@@ -244,6 +246,20 @@ func c04RunInBubble(cs c04Case, res *c04Result) {
 		nodes[idx(f.Side)].side.Gater.Reject(f.What, f.K)
 	case "rcmgr":
 		nodes[idx(f.Side)].side.RM.Refuse(f.What, f.K)
+	case "hostclosecall":
+		hook := func(what string, n int) {
+			if what == f.What && n == f.K {
+				closeMu.Lock()
+				already := closeClaimed[idx(f.Side)]
+				closeMu.Unlock()
+				if !already {
+					h.MarkFired()
+				}
+				closeHostAsync(idx(f.Side), fmt.Sprintf("fault at %s call %s#%d", f.Side, what, n))
+			}
+		}
+		nodes[idx(f.Side)].side.RM.SetOnCall(hook)
+		nodes[idx(f.Side)].side.Gater.SetOnCall(hook)
 	}
 	mnet.SetOnPair(func(p *memtpt.Pair) {
 		if p.Index != 0 {
@@ -290,6 +306,7 @@ func c04RunInBubble(cs c04Case, res *c04Result) {
 					h.Trace("fault: %s closes its connection at its op %d", f.Side, f.K)
 					go c.Close()
 				}
+				c04Yield()
 			})
 		}
 	})
@@ -432,6 +449,15 @@ func c04RunInBubble(cs c04Case, res *c04Result) {
 	}
 }
 
+// c04Yield lets a goroutine that was just started (an asynchronous Close) run as far as it can before the
+// caller carries on: the workers run with GOMAXPROCS=1, so every Gosched hands the processor to the other
+// runnable goroutines. It never blocks, so it is safe while the caller holds locks of the code under test.
+func c04Yield() {
+	for i := 0; i < 200; i++ {
+		runtime.Gosched()
+	}
+}
+
 func c04Run(t *testing.T, cs c04Case) *c04Result {
 	res := &c04Result{Case: cs}
 	func() {
@@ -487,11 +513,13 @@ func c04Cases(cfg memtpt.Config, mode string, dry *c04Result, full bool) []c04Ca
 		for _, hook := range memnet.GaterHooks {
 			for n := 0; n < dry.GaCalls[si][hook] && full; n++ {
 				add(memtpt.Fault{Kind: "gater", Side: side, K: n, What: hook})
+				add(memtpt.Fault{Kind: "hostclosecall", Side: side, K: n, What: hook})
 			}
 		}
 		for _, call := range memnet.RcmgrCalls {
 			for n := 0; n < dry.RcCalls[si][call]; n++ {
 				add(memtpt.Fault{Kind: "rcmgr", Side: side, K: n, What: call})
+				add(memtpt.Fault{Kind: "hostclosecall", Side: side, K: n, What: call})
 			}
 		}
 	}
